@@ -202,7 +202,14 @@ def builtin(it, name):
     def b_sorted(xs, key=None, reverse=False):
         xs = list(it.iterate(xs))
         if key is not None:
-            keys = [it.call(key, [x], {}) for x in xs]
+            def lit_key(k):
+                if isinstance(k, (list, tuple)):
+                    return tuple(lit_key(y) for y in k)
+                if isinstance(k, Term) and k.is_const():
+                    c = k.cval()
+                    return int(c) if c.denominator == 1 else c
+                return k
+            keys = [lit_key(it.call(key, [x], {})) for x in xs]
             if all(num(k) or isinstance(k, (str, tuple)) for k in keys):
                 order = sorted(range(len(xs)), key=lambda i: keys[i], reverse=reverse)
                 return [xs[i] for i in order]
